@@ -6,7 +6,7 @@ From Coq Require Import List Bool Arith.
 From PV Require Import Base.PyData C08.Model C08.ProofsStep.
 Import ListNotations.
 
-Definition sk0 (a : absk) (tr per : nat) (lag : bool) : sk := mkSk a tr per EFO lag true true false true.
+Definition sk0 (a : absk) (tr per : nat) (lag : bool) : sk := mkSk a tr per EFO lag true true false true false.
 
 Definition fails (f : req) (s : sk) : Prop := refines f s = true /\ ~ step_good f s.
 
@@ -88,11 +88,26 @@ Theorem periph_le9_refuted :
                = [NPeriph 1; NPeriph 10; NPeriph 2; NPeriph 3; NPeriph 4; NPeriph 5; NPeriph 6; NPeriph 7; NPeriph 8; NPeriph 9].
 Proof. exists (sk0 INST 0 10 false). repeat split; try (vm_compute; reflexivity). unfold step_good. vm_compute. auto. Qed.
 
+(* C08-DROPS-BIOAVAILABILITY: F goes away with the removed depot *)
+Theorem keeps_bio_refuted :
+  exists s, valid s = true /\ g_keeps_bio AbsInst s = false /\ fails AbsInst s
+            /\ step AbsInst s = SOk (with_biob (with_lagb (with_abs s INST) false) false) /\ s_bio s = true.
+Proof.
+  exists (mkSk FO 0 0 EFO false true false false true true).
+  repeat split; try (vm_compute; reflexivity). unfold step_good. vm_compute. intuition discriminate.
+Qed.
+Theorem keeps_bio_refuted_transits :
+  exists s, valid s = true /\ g_keeps_bio (Transits 0 true) s = false /\ fails (Transits 0 true) s /\ s_bio s = true.
+Proof.
+  exists (mkSk FO 2 0 EFO false true true false true true).
+  repeat split; try (vm_compute; reflexivity). unfold step_good. vm_compute. intuition discriminate.
+Qed.
+
 (* C08-REMOVE-PERIPH-KRATES: ValueError('Could not find theta connected to 1') *)
 Theorem rem_periph_rates_refuted :
   exists s, valid s = true /\ g_rem_periph_rates PerRem s = false /\ fails PerRem s
             /\ setter_graph PerRem (build s) = Crash CValue.
 Proof.
-  exists (mkSk INST 3 2 EFO false false true true false).
+  exists (mkSk INST 3 2 EFO false false true true false false).
   repeat split; try (vm_compute; reflexivity). unfold step_good. vm_compute. auto.
 Qed.
